@@ -23,6 +23,57 @@ def key(c):
     return json.dumps(c, sort_keys=True)
 
 
+WCFG = """SPECIFICATION WSpec
+CONSTANTS
+  MaxReports = 3
+  GenOnly = TRUE
+  MaxSteps = 3
+INVARIANTS %s
+CHECK_DEADLOCK FALSE
+"""
+
+
+def watch_stage(ctx, pint, scenarios_override=None):
+    """Watch-mode growth of the Exit family (spec/Watch.tla): MC of the daemon model, TLC-generated scenarios run
+    with the real `pint watch` daemon, TLC validation of the recorded iteration traces. Not part of C05's verdict:
+    failures are reported as SPEC-DRIFT."""
+    mc = ctx.tlc("Watch", "c05_wmc.cfg", files={"c05_wmc.cfg": WCFG % "Inv_W1 Inv_W2 Inv_W3 EmitWCase"}, timeout=1200, workers=6)
+    if scenarios_override is None:
+        gen = mc
+        scen = sorted((v[0] for v in prints(gen, "WCASE")), key=key)
+        rnd = random.Random(ctx.seed * 104729 + 7)
+        rnd.shuffle(scen)
+        n_all = len(scen)
+        scen = scen[:1500 if ctx.thorough else 128]
+    else:
+        scen, n_all = scenarios_override, 0
+    cpath = write_ndjson(ctx.path("c05_watch_cases.ndjson"), scen)
+    tpath = ctx.path("c05_watch_trace.ndjson")
+    ctx.vh("exec-c05-watch", cpath, tpath, pint, timeout=3000)
+    trace = read_ndjson(tpath)
+    j = ctx.tlc("WatchTrace", "WatchTrace.cfg", workers=1, files={"c05_watch_trace.ndjson": tpath}, timeout=1200, heap="4g")
+    done = prints(j, "DONE")
+    if not done or done[0][0] != len(trace):
+        raise MachineryError("watch JUDGE consumed %s of %d trace records" % (done[0][0] if done else "?", len(trace)))
+    drift = ["watch scenario %s: %s" % (cid, json.dumps(d)[:400]) for cid, d in prints(j, "DRIFT")]
+    drift += ["watch-mode documented behaviour (W1-W3) broken, scenario %s: %s" % (cid, json.dumps(d)[:400])
+              for cid, d in prints(j, "WVIOL")]
+    steps = [r for r in trace if r["ev"] == "WStep"]
+    ran = sum(1 for r in trace if r["ev"] == "WStart")
+    if ran < len(scen):
+        print("NOTE property=C05 watch-mode stage: %d of %d scenarios could not be timed reliably on this machine and were left out"
+              % (len(scen) - ran, len(scen)))
+    cov = {
+        "watch_states": mc["distinct"], "watch_scenarios_generated": n_all, "watch_scenarios_run": ran, "watch_scenarios_left_out": len(scen) - ran,
+        "watch_iterations_validated": len(steps),
+        "watch_failing_iterations": sum(1 for c in scen for x in c["scenario"]["steps"] if x == 0),
+        "watch_capped_scrapes": sum(1 for r in steps if r["present"] and len(r["exported"]) < r["problems"]),
+        "watch_sample": {"scenario": [r for r in trace if r["ev"] == "WStart"][0]["scenario"],
+                         "trace": [r for r in trace if r["id"] == trace[0]["id"]][1:]} if trace else {},
+    }
+    return drift, cov
+
+
 def run(ctx, cases_override=None):
     thorough = ctx.thorough
     # ---- MC: Exit |= C05 (+ fold agreement, JSON completeness, display), every case within the bound,
@@ -95,6 +146,8 @@ def run(ctx, cases_override=None):
         raise MachineryError("%d case(s) not realised by the binary (JSON report differs from the requested problems), e.g. %s"
                              % (len(unbound), json.dumps(unbound[0][1])[:600]))
     drift = ["case %s: %s" % (cid, json.dumps(d)[:400]) for cid, d in prints(j, "DRIFT")]
+    wdrift, wcov = ([], {}) if cases_override is not None else watch_stage(ctx, pint)
+    drift += wdrift
     if leads and not viols and cases_override is None:
         raise MachineryError("model-level counterexample (%s) not reproduced on the real code: spec bug" % leads)
     nontriv = {key(r["case"]) for r in trace if r["case"]["reports"]}
@@ -119,6 +172,7 @@ def run(ctx, cases_override=None):
         "ci_runs": sum(1 for r in trace if r["case"]["cmd"] == "ci"),
         "unbound": len(unbound),
     }
+    cov.update(wcov)
     return vlib.conclude(ctx, viols, "model_checking", cov, [
         "TLC model-checks the staged transcription of actionLint/actionCI (every arrival order of the reports) against the documented rule",
         "every generated case is run with the real pint binary (lint in a scratch directory, ci in a scratch git repository with real git)",
@@ -129,6 +183,8 @@ def run(ctx, cases_override=None):
         "second verdict predicate (folding): when requested problems are missing from the JSON report while the same check reported "
         "on the same rule, the exit status must be the one all produced problems demand",
         "invalid --fail-on values are represented by 'error' and 'Bug'; --min-severity takes valid values only",
+        "watch mode (spec/Watch.tla, not part of the verdict): the real `pint watch glob` daemon is run for 3 iterations per scenario "
+        "(1.5 s interval), the rule file is rewritten or removed between iterations, /metrics and /health are scraped after each",
     ], drift=drift)
 
 
